@@ -23,6 +23,16 @@ CLAIMED = {
             "builder.commit are outside.",
             "osutils.is_inside_any (Rust) replaced by a python model validated against it before each run; reporter and "
             "tree are stubs"),
+    "C02": ("last-changed revision and per-file parents of one file (the commit builder's decision)",
+            "The real VersionedFileCommitBuilder.record_iter_changes / _heads for one file over one or two parent "
+            "inventories and a working tree in which the file is absent or a file / directory with SYMBOLIC name, directory, "
+            "content hash, executable bit and last-changed revision ids (equal or not), with a symbolic per-file ancestry "
+            "between the parents' versions: the per-file parents are exactly the heads among the parents' versions; the new "
+            "inventory names the single head as last-changed (and stores no text) iff the tree's file is identical to it in "
+            "kind, name, directory, executable bit and content, otherwise the new revision with a text whose parents are "
+            "those heads; removed files get a deletion row, untouched files none. Symlinks, tree references, more than two "
+            "parents, ghosts, the compiled inventory classes, the real graph and brz check over real histories are outside.",
+            "parent entries are python records; make_inventory_delta and the per-file graph are computed by the harness"),
     "C04": ("ordering of the durable effects of commit / autopack / pack (crash points between effects)",
             "The real RepositoryPackCollection._commit_write_group, allocate, autopack / _do_autopack / "
             "plan_autopack_combinations, _execute_pack_operations, _save_pack_names (+ diff / synchronise), "
